@@ -1,5 +1,4 @@
-import CircusProofs.Core.SlotFree
-import CircusProofs.Core.NoClose
+import CircusProofs.Core.ArbInv
 import CircusProofs.Core.Init
 import CircusProofs.Props.C02
 import CircusProofs.Props.C06
@@ -17,8 +16,11 @@ repaired in /repo it retries every 100 ms while an exclusive command holds the s
 * `Arbiter.stop` targets every registered watcher (a permutation of all of them, each started);
 * when the stop future completes the loop is stopped and `stepTail` closes the control and the
   PUB socket; closed stays closed; nothing is published / replied on a closed socket;
-* the `ok` reply of a non-waiting `quit` is written by `handle_message` itself, i.e. before the
-  loop gets to `stop_controller_and_close_sockets`.
+* no stimulus (`stepOp`: request, signal, timer, check, death — with all the coroutines it runs) ever
+  closes a socket: only `stepTail` does (proved over Core/NoClose.lean, the composition proofs for
+  writer structures without `setClosed`);
+* the `ok` reply of a non-waiting `quit` is written by `handle_message` itself, on a control socket
+  that is still open, i.e. before the loop gets to `stop_controller_and_close_sockets`.
 -/
 namespace Circus.Core
 
@@ -84,81 +86,6 @@ theorem C08_sigquit_resume_queues_callback (rec : Rec) (v : Val) (n : String) (s
 theorem C08_sigquit_callback_retries (rec : Rec) (n : String) : runReady1 rec (.callback n) = sigQuit := rfl
 
 /-! ### 2. `stopping` is set by an accepted quit and holds for ever -/
-
-/-- invariants that only look at the arbiter record -/
-def ArbP (P : Arbiter → Prop) (s : State) : Prop := P s.a
-
-/-- `P` survives every write a coroutine or `dispatch` makes to the arbiter record … -/
-structure ArbStableC (P : Arbiter → Prop) : Prop where
-  stopping : ∀ a, P a → P { a with stopping := true }
-  restarting : ∀ a, P a → P { a with restarting := true, stopping := true }
-  loopStop : ∀ a b, P a → P { a with loopStop := b }
-  directory : ∀ a ns ws, P a → P { a with names := ns, watchers := ws }
-  slot : ∀ a v, P a → P { a with slot := v }
-
-/-- … and also the one write only the event loop makes (`stop_controller_and_close_sockets`) -/
-structure ArbStable (P : Arbiter → Prop) : Prop extends ArbStableC P where
-  closed : ∀ a, P a → P { a with ctlClosed := true, pubClosed := true }
-
-theorem arbP_same {P : Arbiter → Prop} {m : M α} (h : ∀ s, (m s).2.a = s.a) : Pres (ArbP P) m := by
-  intro s hs; unfold ArbP; rw [h s]; exact hs
-
-theorem arbP_modA {P : Arbiter → Prop} (f : Arbiter → Arbiter) (h : ∀ a, P a → P (f a)) : Pres (ArbP P) (modA f) :=
-  fun s hs => h s.a hs
-
-theorem arbPLeafXC (P : Arbiter → Prop) (S : ArbStableC P) : LeafXC (ArbP P) where
-  emit := fun o => arbP_same fun s => by simp only [emit, modS]; split <;> rfl
-  runK := fun f _ => arbP_same fun _ => rfl
-  emitEv := fun _ _ _ _ => arbP_same fun s => by simp only [emitEv, modS]; split <;> rfl
-  setStatus := fun _ _ => arbP_same fun _ => rfl
-  trySetNp := fun u k => arbP_same fun s => by
-    unfold trySetNp; simp only
-    generalize (if k < 0 then 0 else k) = k'
-    split <;> rfl
-  spawnAdopt := fun u w => arbP_same fun s => by
-    unfold spawnAdopt; simp only
-    cases h : s.k.spawn with
-    | mk k' r => cases r <;> rfl
-  popPid := fun _ _ => arbP_same fun _ => rfl
-  bumpHook := fun _ _ _ => arbP_same fun _ => rfl
-  setWOpt := fun _ _ => arbP_same fun _ => rfl
-  setObjStopping := fun _ _ => arbP_same fun _ => rfl
-  setRc := fun _ _ => arbP_same fun _ => rfl
-  markBlocked := arbP_same fun _ => rfl
-  freshId := arbP_same fun _ => rfl
-  pushFrame := fun _ => arbP_same fun _ => rfl
-  removeFrame := fun _ => arbP_same fun _ => rfl
-  setFrameK := fun _ _ => arbP_same fun _ => rfl
-  armFrame := fun _ => arbP_same fun _ => rfl
-  pushSleeper := fun _ => arbP_same fun _ => rfl
-  armTop := fun _ => arbP_same fun _ => rfl
-  setStopping := arbP_modA _ S.stopping
-  setRestarting := arbP_modA _ S.restarting
-  setLoopStop := fun b => arbP_modA _ (fun a => S.loopStop a b)
-  clearDone := arbP_same fun _ => rfl
-  unregister := fun u => arbP_modA _ (fun a => S.directory a _ _)
-  registerNew := fun w _ => by
-    intro s hs
-    unfold registerNew registerChecked
-    simp only
-    split
-    · exact hs
-    · split
-      · exact hs
-      · exact S.directory s.a _ _ hs
-  fireSleeper := fun _ => arbP_same fun _ => rfl
-  enqueueResume := fun _ _ _ => arbP_same fun _ => rfl
-  enqueueCallback := fun _ => arbP_same fun _ => rfl
-  setSlot := fun v => arbP_modA _ (fun a => S.slot a v)
-  pushTop := fun _ => arbP_same fun _ => rfl
-  finishTop := fun _ _ => arbP_same fun _ => rfl
-  topAddCb := fun _ _ => arbP_same fun _ => rfl
-  enqueue := fun _ => arbP_same fun _ => rfl
-  dequeue := arbP_same fun _ => rfl
-  emitRep := fun _ _ _ _ _ => arbP_same fun s => by simp only [emitRep, modS]; split <;> rfl
-
-theorem arbPLeafX (P : Arbiter → Prop) (S : ArbStable P) : LeafX (ArbP P) :=
-  { arbPLeafXC P S.toArbStableC with setClosed := arbP_modA _ S.closed }
 
 theorem stoppingStable : ArbStable (fun a => a.stopping = true) :=
   ⟨⟨fun _ _ => rfl, fun _ _ => rfl, fun _ _ h => h, fun _ _ _ h => h, fun _ _ h => h⟩, fun _ h => h⟩
@@ -390,9 +317,6 @@ theorem C08_nothing_published_after_close (s : State) :
 
 /-! ### 5. the reply to `quit` is written before the sockets are closed -/
 
-theorem socketsStableC (c p : Bool) : ArbStableC (fun a => a.ctlClosed = c ∧ a.pubClosed = p) :=
-  ⟨fun _ h => h, fun _ h => h, fun _ _ h => h, fun _ _ _ h => h, fun _ _ h => h⟩
-
 /-- **no stimulus closes a socket by itself**: handling a request frame, a signal, a timer, a periodic
     check, a death — everything a step does *before* the loop drains (`stepOp`), with all the
     coroutines it runs — leaves the control and PUB sockets exactly as they were.  Only `stepTail`
@@ -406,14 +330,6 @@ theorem C08_stimulus_never_closes (op : Op) (s : State) :
 theorem C08_dispatch_never_closes (cid : Option String) (msg : Option JVal) (s : State) :
     (handleMessage cid msg s).2.a.ctlClosed = s.a.ctlClosed ∧ (handleMessage cid msg s).2.a.pubClosed = s.a.pubClosed :=
   handleMessage_presC (SpecC.ofLeafXC (arbPLeafXC _ (socketsStableC s.a.ctlClosed s.a.pubClosed))) cid msg s ⟨rfl, rfl⟩
-
-theorem validateExecute_never_closes (cmd : String) (props : JVal) (s : State) :
-    (validateExecute cmd props s).2.a.ctlClosed = s.a.ctlClosed ∧ (validateExecute cmd props s).2.a.pubClosed = s.a.pubClosed :=
-  validateExecute_presC (SpecCoreC.ofLeafYC (arbPLeafXC _ (socketsStableC s.a.ctlClosed s.a.pubClosed)).toLeafYC) cmd props s ⟨rfl, rfl⟩
-
-theorem addDoneCallback_never_closes (tid : Nat) (cb : TopCb) (s : State) :
-    (addDoneCallback tid cb s).2.a.ctlClosed = s.a.ctlClosed ∧ (addDoneCallback tid cb s).2.a.pubClosed = s.a.pubClosed :=
-  addDoneCallback_presC (arbPLeafXC _ (socketsStableC s.a.ctlClosed s.a.pubClosed)).toLeafYC tid cb s ⟨rfl, rfl⟩
 
 /-- **the `ok` reply of an accepted, non-waiting `quit` is written by `handle_message` itself, on a
     control socket that is still open**: `dispatch` attaches the reply callback and calls
@@ -431,10 +347,6 @@ theorem C08_quit_reply_before_close (cid : String) (j : JVal) (name : String) (s
       s2.a.ctlClosed = false ∧
       (s2.blocked = false →
         (handleMessage (some cid) (some j) s).2.log = s2.log ++ [Obs.rep cid ((j.get? "id").getD .null) "ok" "-" "-"]) := by
-  have hcast' : (match j.get? "msg_type" with | some (JVal.str "cast") => true | _ => false) = false := by
-    split
-    · rename_i h; exact absurd h hcast
-    · rfl
   have hs : (clearDone s).2.a.slot = none := h1
   have hr : (clearDone s).2.a.restarting = false := h2
   have hqa := quit_accepted ((j.get? "properties").getD (.obj [])) (clearDone s).2 hs hr
@@ -458,7 +370,7 @@ theorem C08_quit_reply_before_close (cid : String) (j : JVal) (name : String) (s
     rw [hve]
     simp only
     erw [if_neg (by decide)]
-    simp only [hw, hcast']
+    simp only [hw]
     erw [if_pos rfl]
   refine ⟨_, key, ?_, ?_⟩
   · rw [(addDoneCallback_never_closes _ _ s1).1, hc1]
@@ -502,8 +414,8 @@ example : (stepM (.sigreq true) c08Free).2.a.ctlClosed = true ∧ (stepM (.sigre
 -- `iter_watchers(reverse=False)`: ascending priority, all of them
 example : (iterWatchers false (setStopping c08Free).2).1 = [2, 1] := by decide +kernel
 -- the hypotheses of `C08_quit_reply_before_close`
-example : c08Quit.isObj = true ∧ pyLower "QUIT" = "quit" ∧ c08Free.a.slot = none ∧ c08Free.a.restarting = false := by
-  decide +kernel
+example : c08Quit.isObj = true ∧ pyLower "QUIT" = "quit" ∧ c08Free.a.slot = none ∧ c08Free.a.restarting = false ∧
+    c08Free.a.ctlClosed = false := by decide +kernel
 example : ((handleMessage (some "c") (some c08Quit) c08Free).2.log.filter Obs.isRep).map showObs =
     ["o rep c s55 ok - -"] ∧ (handleMessage (some "c") (some c08Quit) c08Free).2.a.ctlClosed = false := by decide +kernel
 
